@@ -11,7 +11,7 @@ from .spec import Contract
 class CallMixin:
     BUILTINS = {'len', 'range', 'zip', 'enumerate', 'reversed', 'min', 'max', 'abs', 'sum', 'all', 'any',
                 'isinstance', 'iter', 'id', 'super', 'print', 'repr', 'hash', 'cast', 'getattr', 'hasattr', 'sorted',
-                'exit', 'map', 'frozenset', 'next', 'issubclass', 'setattr', 'delattr', 'callable', 'ghost_list',
+                'exit', 'map', 'frozenset', 'next', 'issubclass', 'setattr', 'delattr', 'callable', 'ghost_list', 'open',
                 'assume'}
     SPEC_FUNCS = {'old', 'forall', 'exists', 'forall_ref', 'implies', 'ite', 'eqv', 'typeis', 'isold', 'isnew', 'len', 'min', 'max',
                   'abs', 'isinstance', 'isnone', 'notnone', 'seqeq', 'iff', 'subtype', 'sizeof'}
@@ -381,6 +381,11 @@ class CallMixin:
                     v = VSeq(z3.IntVal(0), fresh(ty.elem, self.fresh_name('e'), 1), ty.skind)
                 if ty.kind == 'ref' and isinstance(v, VNone):
                     v = VRef(0, ty.cls)
+                if ty.kind in ('optint', 'optstrid') and isinstance(v, (VNone, VInt)):
+                    v = coerce(v, VOptInt(True, 0))
+                if ty.kind in ('optint', 'optstrid') and isinstance(v, (VSeq, VView, VTuple)):
+                    # a compound data value passed where the contract identifies data by an id: an unconstrained id
+                    v = VOptInt(False, self.fresh_int('dataid'))
                 if ty.kind == 'ref' and isinstance(v, VRef):
                     # static class refinement for the spec evaluation
                     pass
@@ -622,6 +627,11 @@ class CallMixin:
             if isinstance(v, VOpaque) and v.tag == 'emptylist':
                 return VInt(0)
             raise Unsupported(f"len of {v!r}")
+        if name == 'open':
+            c = self.reg.get('builtins.open')
+            if c is None:
+                return VOpaque('file', 'opaque')
+            return self.apply_contract(c, None, self.bind_contract(c, args[:1], {}), fr, node)
         if name == 'ghost_list':
             return VSeq(z3.IntVal(0), fresh(parse_type(args[0].py), self.fresh_name('ghost'), 1), 'list')
         if name == 'assume':
